@@ -457,6 +457,14 @@ def _try_candidates(res, h, inputs, hyps_base, neg, obname, key, timeout_ms, pro
         [solve.MARGIN == 0] + rb,
         [solve.MARGIN == 0],
     ]
+    # last resort: real inputs on the dyadic grid 2^-40 (exactly representable doubles whose small sums stay exact), for
+    # counterexample regions so thin that an arbitrary real model collapses onto their boundary when converted to a double
+    grid = []
+    for n_, k_, i_ in inputs:
+        if k_ == 'real':
+            grid.append(i_ * (2 ** 40) == z3.ToReal(z3.Int(f'grid!{n_}')))
+    if grid:
+        variants.append([solve.MARGIN == 0] + rb + grid)
     tried = 0
     for extra in variants:
         for seed in (0, 7):
@@ -466,7 +474,7 @@ def _try_candidates(res, h, inputs, hyps_base, neg, obname, key, timeout_ms, pro
                 subs = [(v, z3.ToReal(z3.Int(str(v) + '_int'))) for v in ints]
                 fs = [z3.substitute(f, *subs) for f in fs]
                 inp = [(n_, k_, (z3.substitute(i_, *subs) if k_ in ('real', 'int') else i_)) for n_, k_, i_ in inputs]
-            r, mdl = solve.check_sat(fs, timeout_ms, seed=seed)
+            r, mdl = solve.check_sat(fs, timeout_ms if extra is not variants[-1] or not grid else min(timeout_ms, 8000), seed=seed)
             if r != 'sat':
                 continue
             vals = concrete_inputs(inp, mdl)
